@@ -3,11 +3,15 @@
 after a reviewed change of the source, e.g. a fix: commit, together with the matching model change)."""
 import re
 import sys
-src = open('/verif/coq/Gen/GenTables.v').read()
-pins = open('/verif/coq/Model/Pins.v').read()
-for name in sys.argv[1:]:
+if sys.argv[1:2] == ["--src"]:
+    GEN, PIN, names = '/verif/coq/Gen/GenSrc.v', '/verif/coq/Model/PinsSrc.v', sys.argv[2:]
+else:
+    GEN, PIN, names = '/verif/coq/Gen/GenTables.v', '/verif/coq/Model/Pins.v', sys.argv[1:]
+src = open(GEN).read()
+pins = open(PIN).read()
+for name in names:
     pat = r"Definition %s .*?\.\n(?=Definition|End)" % re.escape(name)
     m, m2 = re.search(pat, src, re.S), re.search(pat, pins, re.S)
     pins = pins.replace(m2.group(0), m.group(0))
     print("repinned", name)
-open('/verif/coq/Model/Pins.v', 'w').write(pins)
+open(PIN, 'w').write(pins)
